@@ -59,6 +59,13 @@ def call(fn, *a, **kw):
         return "raise", e
 
 
+def api(name):
+    """the public function `name` of debian_support, looked up at call time (a missing name is an observation too)"""
+    def f(*a, **kw):
+        return getattr(ds(), name)(*a, **kw)
+    return f
+
+
 def short(x, n=140):
     s = x if isinstance(x, str) else repr(x)
     return s if len(s) <= n else s[:n // 2] + "...(%d)..." % len(s) + s[-n // 3:]
@@ -156,7 +163,7 @@ def h_concretize(rng, case, stress):
 
 
 def h_call(name, items, container, kw=False):
-    fn = getattr(ds(), name)
+    fn = api(name)
     arg = contain(container, items)
     return call(fn, lines=arg) if kw else call(fn, arg)
 
@@ -252,7 +259,7 @@ def p_patches(form, hunks):
 
 def p_check(case, conc, name, form, kw=False):
     """None | message | ("unspecified", note)"""
-    fn = getattr(ds(), name)
+    fn = api(name)
     buf = list(conc["buf"])
     alias = buf                         # the caller's list: patched in place
     patches = p_patches(form, conc["hunks"])
@@ -353,7 +360,7 @@ def m_concretize(rng, case, fam, stress):
 
 
 def m_check(case, conc, name, kinds):
-    fn = getattr(ds(), name)
+    fn = api(name)
     before = [list(a) for a in conc["args"]]
     argv = [m_contain(k, a) for k, a in zip(kinds, conc["args"])]
     st, got = call(fn, *argv)
@@ -589,10 +596,10 @@ def g_one(seed, idx, case, variant, base):
     rng = random.Random("x18-G-%s-%s-%s" % (seed, idx, variant))
     stress = (0, 1, 2, 1)[variant % 4] if utf8_locale() else 0
     align = None
-    if variant == 3 and case["damage"] == "none" and case["cuts"] and case["cuts"][0] > 0 and "x" in case["content"][:case["cuts"][0]]:
+    if variant == 3 and case["damage"] == "none" and "x" in (case["content"][:case["cuts"][0]] if case["cuts"] else case["content"]):
         align = rng.choice(ALIGN) + rng.choice([-1, 0, 1])
     conc = g_concretize(rng, case, stress, align)
-    repo, tmpd, ldir = os.path.join(base, "repo"), os.path.join(base, "tmp"), os.path.join(base, "ldir")
+    repo, tmpd, ldir = os.path.join(base, "repo sp+\u00e9~"), os.path.join(base, "tmp"), os.path.join(base, "ldir")
     for d in (repo, tmpd, ldir):
         if os.path.isdir(d):
             for e in os.listdir(d):
@@ -611,7 +618,7 @@ def g_one(seed, idx, case, variant, base):
         name = ("download_gunzip_lines", "downloadGunzipLines")[k % 2]
         form = URL_FORMS[k % 3]
         url = file_url(path, form)
-        st, got = call(getattr(d, name), remote=url + ".gz") if k % 5 == 0 else call(getattr(d, name), url + ".gz")
+        st, got = call(api(name), remote=url + ".gz") if k % 5 == 0 else call(api(name), url + ".gz")
         res = {"part": "G", "idx": idx, "variant": variant, "fn": name, "url": form, "damage": case["damage"], "status": "ok", "msg": "",
                "size": len(conc["gz"]), "align": align, "exc": type(got).__name__ if st == "raise" else "none", "members": len(case["cuts"]) + 1}
         what = "%s(file:// URL of a gzip file: %d member(s), %d bytes, damage %s; content %s)" % (
@@ -644,7 +651,7 @@ def g_one(seed, idx, case, variant, base):
                 with open(local, "wb") as f:
                     f.write(oldb)
             name2 = ("download_file", "downloadFile")[(k // 2) % 2]
-            st, got = call(getattr(d, name2), url, local)
+            st, got = call(api(name2), url, local)
             r2 = {"part": "G", "idx": idx, "variant": variant, "fn": name2, "url": form, "damage": case["damage"], "status": "ok", "msg": "",
                   "size": len(conc["gz"]), "align": align, "exc": type(got).__name__ if st == "raise" else "none", "members": len(case["cuts"]) + 1}
             what2 = "%s(file:// URL of a gzip file: %d member(s), content %s)" % (name2, len(case["cuts"]) + 1, short(conc["content"], 80))
@@ -763,7 +770,7 @@ def vhistory(seed, hidx, nops, base):
             conc = [(f, l, [line(i) for i in a]) for f, l, a in hs]
             last_hunks = hs
             form = rng.choice(HUNK_FORMS)
-            fn = getattr(d, rng.choice(["patch_lines", "patchLines"]))
+            fn = api(rng.choice(["patch_lines", "patchLines"]))
             patches = p_patches(form, conc)
             target = alias[b] if rng.random() < 0.5 else bufs[b]
             st, got = call(fn, lines=target, patches=patches) if rng.random() < 0.2 else call(fn, target, patches)
@@ -810,7 +817,7 @@ def vhistory(seed, hidx, nops, base):
             vals = m_values(rng, fam, nr)
             cargs = [[rng.choice(vals[x]) for x in a] for a in args]
             kinds = [rng.choice(M_CONTAINERS) for _ in args]
-            st, got = call(getattr(d, rng.choice(["merge_as_sets", "mergeAsSets"])), *[m_contain(k, a) for k, a in zip(kinds, cargs)])
+            st, got = call(api(rng.choice(["merge_as_sets", "mergeAsSets"])), *[m_contain(k, a) for k, a in zip(kinds, cargs)])
             res = [0]
             if st == "ok" and isinstance(got, list):
                 res = []
@@ -838,7 +845,7 @@ def vhistory(seed, hidx, nops, base):
             old_tmp = tempfile.tempdir
             tempfile.tempdir = tmpd
             try:
-                st, got = call(getattr(d, rng.choice(["download_gunzip_lines", "downloadGunzipLines"])), file_url(path, rng.choice(URL_FORMS)))
+                st, got = call(api(rng.choice(["download_gunzip_lines", "downloadGunzipLines"])), file_url(path, rng.choice(URL_FORMS)))
             finally:
                 tempfile.tempdir = old_tmp
             left = os.listdir(tmpd)
